@@ -265,6 +265,7 @@ type loadRec struct {
 	Task       int
 	Enter      uint64
 	Exit       uint64
+	NowEnter   int64 // clock when the loader was entered
 	Keys       []int
 	Reload     bool
 	Olds       []int
@@ -534,6 +535,7 @@ func (l loader) phase() int {
 
 func (r *Runner) loaderBody(rec *loadRec) {
 	rec.Enter = r.W.Tick()
+	rec.NowEnter = r.W.Now
 	rec.TaskRef = simrt.Cur()
 	if c := curCtx(); c != nil {
 		rec.Task, rec.OpIdx = c.id, c.opIdx
